@@ -10,7 +10,13 @@ DRV = 'drv_c20'
 
 REGISTRY = {
     'id': 'C20',
-    'text': 'Lean theorems about the model of ProFormaAnnotation.__eq__ / are_mods_equal / are_intervals_equal (reflexive, symmetric, '
+    'text': 'Mechanical tie: harness/translate_eqcore.py reads the CURRENT proforma_dataclasses.py / proforma_parser.py with ast and emits '
+            'Generated/EqCorePy.lean (GenEq: Mod.__eq__, Interval.__eq__, are_mods_equal, are_intervals_equal, '
+            'ProFormaAnnotation.__eq__ with its ordered field list and key-union loop, has_mods with the has_* predicates, mod_dict with '
+            'its field list and filter, strip with the fields it clears); Props/C20Gen proves each equal to the hand model '
+            '(GenEq.f = Pept.f) and transfers the theorems below to the definitions read off the source; a function outside the tiny '
+            'subset is reported as untranslated and stays tied by correspondence only. '
+            'Lean theorems about the model of ProFormaAnnotation.__eq__ / are_mods_equal / are_intervals_equal (reflexive, symmetric, '
             'transitive; equal iff the canonical forms - per position the multiset of (decimal value key, multiplier) - are equal; the '
             'decimal key decides numeric equality m*10^e = m\'*10^e\' so int 1 == float 1.0; insensitive to permuting the mods of one '
             'position; one sensitivity theorem per perturbation: value, multiplier, position, interval bound/flag/mods, interval '
@@ -21,7 +27,7 @@ REGISTRY = {
             'the model is tied to /repo by correspondence on generated annotations and '
             'every single-field perturbation; the oracle evaluates the property clauses on the implementation, including '
             'independence of copies (mutate the copy, re-dump the source)',
-    'note': 'trusted: Lean kernel, axioms propext/Classical.choice/Quot.sound, the correspondence harness; float values are read through '
+    'note': 'trusted: Lean kernel, axioms propext/Classical.choice/Quot.sound, the correspondence harness, the subset reader translate_eqcore.py (its output is small, committed and diffable); float values are read through '
             'their repr as exact decimals (exact int/float comparison for |x| < 1e16); nan is outside the domain; util.convert_type on raw '
             'str inputs and object identity/aliasing are outside the pure model (aliasing is checked dynamically)',
     'technique': 'Lean 4 proof about executable model + differential correspondence',
